@@ -90,7 +90,7 @@ func (P *Program) prepareSpecs() {
 	P.specCompSorts = map[string]string{}
 	var names []string
 	for n, sf := range P.contracts.Specs {
-		if !sf.Opaque && sf.Body != nil && P.isRecursiveSpec(n) {
+		if !sf.Opaque && sf.Body != nil && (sf.NoInline || P.isRecursiveSpec(n)) {
 			names = append(names, n)
 		}
 	}
@@ -252,7 +252,7 @@ func (P *Program) isRecursiveSpec(name string) bool {
 // callSpec emits an application of a spec function in the given state.
 // Non-recursive spec functions are expanded in place.
 func (vc *VC) callSpec(sf *SpecFunc, args []Val, st *State) Val {
-	if !sf.Opaque && !vc.prog.isRecursiveSpec(sf.Name) {
+	if !sf.Opaque && !sf.NoInline && !vc.prog.isRecursiveSpec(sf.Name) {
 		var pkg *types.Package
 		for _, p := range vc.prog.allPkgs {
 			if p.Path() == sf.Pkg {
@@ -403,6 +403,24 @@ func (vc *VC) specDecls() string {
 			continue
 		}
 		if !recursive {
+			if si0.sf.NoInline {
+				// kept as a symbol so that lemmas about it have triggers
+				var sorts, binders, args []string
+				for _, c := range si0.comps {
+					sorts = append(sorts, vc.compSort(c))
+					binders = append(binders, "("+vc.specParamHeap(c)+" "+vc.compSort(c)+")")
+					args = append(args, vc.specParamHeap(c))
+				}
+				for i, p := range si0.sf.Params {
+					sorts = append(sorts, sortOfType(si0.ptypes[i]))
+					binders = append(binders, "(|a:"+p.Name+"| "+sortOfType(si0.ptypes[i])+")")
+					args = append(args, "|a:"+p.Name+"|")
+				}
+				app := sx("spec_"+si0.sf.Name, args...)
+				fmt.Fprintf(&b, "(declare-fun spec_%s (%s) %s)\n", si0.sf.Name, strings.Join(sorts, " "), si0.rsort)
+				fmt.Fprintf(&b, "(assert (forall (%s) (! (= %s %s) :pattern (%s))))\n", strings.Join(binders, " "), app, si0.body, app)
+				continue
+			}
 			fmt.Fprintf(&b, "(define-fun spec_%s %s %s)\n", si0.sf.Name, sig(si0), si0.body)
 			continue
 		}
